@@ -7,6 +7,7 @@ from .. import core, qeval, qgen
 from .. import gen as G
 
 LEVEL = "proof"
+READY = True
 CLAIM = {
     "text": "Lean theorems over ALL documents and ALL filter-free standard queries: every match's path string is the RFC 9535 2.7 normalized path of its location, "
             "its parts are that location, its value is the document's value there (query_refines_rfc + located), the JSON Pointer built from the parts and the pointer's "
